@@ -8,6 +8,7 @@ mod findings;
 mod misc;
 mod client;
 mod inbound;
+mod alias;
 mod wire;
 
 pub(crate) fn tier_thorough() -> bool { std::env::var("VERIF_TIER").map(|v| v == "thorough").unwrap_or(false) }
